@@ -228,10 +228,11 @@ PROPS = {
         "configs": int_cfgs,
         "rule": "unary functions (frexp both outputs, ilogb, logb, frac): F32L u F32H incl. every subnormal power of two (all 2^32 floats in thorough), F64S; "
                 "ldexp/scalbn: F32L x EXP / F64L x EXP with EXP = every int in [-1200,1200], +-2^k, +-2^k+-1, INT_MIN/INT_MAX, a different exponent in every lane; "
-                "fmax/fmin/fdim: F32L^2, F64L^2; KF tuples in every lane against every fill. non-trivial: zero, subnormal, infinite or NaN input or result.",
-        "explanation": "each function on every member of the domain against <cmath> under round-to-nearest; bit for bit except NaN results (any NaN) and, for "
-                       "frac/fmax/fmin/fdim, zero results (either sign); frexp's exponent is not compared for +-inf/NaN inputs (the statement does not define it)",
-        "assumptions": ["glibc <cmath> is the reference"],
+                "fmax/fmin/fdim: F32L^2, F64L^2; KF tuples in every lane against every fill; frexp, ilogb, logb, frac (lattice) and fdim again under FE_UPWARD, FE_DOWNWARD and "
+                "FE_TOWARDZERO. non-trivial: zero, subnormal, infinite or NaN input or result.",
+        "explanation": "each function on every member of the domain against <cmath> under the same rounding mode; bit for bit except NaN results (any NaN) and, for "
+                       "frac/fmax/fmin/fdim (and logb under a directed mode), zero results (either sign); frexp's exponent is not compared for +-inf/NaN inputs (the statement does not define it)",
+        "assumptions": ["glibc <cmath> is the reference", "ldexp/scalbn ('overflow to infinity') and fmax/fmin are explored under FE_TONEAREST only"],
     },
     "C13": {
         "tus": ["t_fclass"],
@@ -272,10 +273,15 @@ PROPS = {
         "rule": "for every vector type and every n in 0..W+1: a buffer of exactly min(n,W) elements placed (i) ending at a page boundary followed by an inaccessible page and (ii) starting at a "
                 "page boundary preceded by one, the neighbour being PROT_NONE or PROT_READ (write-back of old bytes faults), for every load/store form; n == 0 with a null pointer and pointers "
                 "inside PROT_NONE memory; gather/scatter with the table flush against PROT_NONE pages and wild indices (INT_MAX, INT_MIN, +-3 pages, 2^30) in the inactive lanes. "
-                "non-trivial: n != W.",
-        "explanation": "every call under a SIGSEGV/SIGBUS handler; oracle: no signal, loaded lanes correct, canaries outside the stored elements intact. Reads are observable at page "
-                       "granularity only (an over-read that stays inside the page is invisible); the verdict on masked-store fault suppression is for this CPU",
-        "assumptions": ["read footprint is observable only at page granularity", "a failing case is replayed by repeating the deterministic enumeration for its subject"],
+                "Second harness (t_memasan): every contiguous load/store form x every n in 0..W+2 x every element-aligned offset of a 64-byte line x 2 payloads, built with "
+                "AddressSanitizer, every arena byte outside [p, p+min(n,W)) poisoned before the call. non-trivial: n != W.",
+        "explanation": "every call under a SIGSEGV/SIGBUS handler; oracle: no signal, loaded lanes correct, canaries outside the stored elements intact. In the page-protection "
+                       "harness reads are observable at page granularity only; the AddressSanitizer harness sees byte-granular accesses of plain vector loads/stores (a "
+                       "full-width read-modify-write that stays inside the page and restores the old values), not those of masked-move builtins, which the compilers do not "
+                       "instrument. The verdict on masked-store fault suppression is for this CPU",
+        "assumptions": ["AddressSanitizer reports the first offending call per code address only (its recover mode suppresses repeats)",
+                        "bytes before p inside p's 8-byte shadow granule cannot be poisoned", "hardware gathers/scatters are not instrumented: page protection only",
+                        "a failing case is replayed by repeating the deterministic enumeration for its subject"],
     },
     "C14": {
         "tus": ["t_denom"],
@@ -293,7 +299,7 @@ PROPS = {
         "configs": int_cfgs,
         "rule": "for every integer vector type: Denominator<V> built from vectors of W different non-zero divisors walking the divisor alphabet (8-bit: every divisor; 16-bit: every divisor; "
                 "32/64-bit: +-1..2^8 (2^11 thorough), K, L members, spread values), each checked against every numerator of the numerator alphabet with every lane at a different phase; "
-                "the broadcast constructor Denominator<V>(Denominator<T>(d)) for every d (8-bit, thorough) or the lattice divisors, compared with the model for all lanes. non-trivial: |quotient| >= 2.",
+                "the broadcast constructor Denominator<V>(Denominator<T>(d)) for every d (8-bit, thorough) or the lattice divisors, compared with the model for all lanes; partially uniform divisor vectors (6 divisors, every ordered pair, every split point and every single differing lane). non-trivial: |quotient| >= 2.",
         "explanation": "state = the constructed vector denominator; value() and div, /, %, /=, %= per lane against C++ n/d and n%d; lanes hold different divisors and numerators so a "
                        "cross-lane dependency shows as a wrong lane; a missing broadcast constructor or an inaccessible value() is a violation",
         "assumptions": ["Denominator<int64_t>(-1) (a C14 finding: it traps) is not executed on the broadcast path"],
@@ -339,7 +345,7 @@ PROPS = {
         "configs": prefetch_cfgs,
         "rule": "prefetch_read / prefetch_write x levels L1/L2/L3 x {const void*, uint8, 4-, 64-, 4096-byte objects} x pointer at every byte offset of a 64-byte line in: a valid page, "
                 "the last line before a PROT_NONE page, the last data line before a read-only page, inside PROT_NONE pages, a read-only page, null, a non-canonical address, the top "
-                "of the address space x n in {0,1,63,64,65,4095,4096,4097,3 pages} (bytes, or the object count covering them); builds none / AVEL_SSE2 / full with GCC and Clang, "
+                "of the address space x n in {0,1,63,64,65,4095,4096,4097,3 pages} at every offset and {65537, 262145, 300000, 2^20+3, 2^24+7} at two offsets (bytes, or the object count covering them; 40 MiB of inaccessible address space follow the pages); builds none / AVEL_SSE2 / full with GCC and Clang, "
                 "cache-line macros 32/64/128. non-trivial: any region other than the plain valid page.",
         "explanation": "the complete finite menu of environment placements is enumerated; oracle: no signal, and a checksum over the whole arena (all six pages) is unchanged at the end "
                        "of every (function, level, type) pass",
@@ -351,8 +357,8 @@ PROPS = {
                 "alone / +VL / +BW, the arm cover, the full set; thorough: all 4217 closed sets. For each: -fsyntax-only of <avel/Avel.hpp> + <avel/Aligned_allocator.hpp> + a static_assert "
                 "table (exactly the documented Vector/Vector_mask specialisations are complete, sizeof == N*sizeof(T), trivially copyable, trivial masks, vecNx*/vecMx*/mask*/arr* aliases "
                 "name the widest provided width) naming only the maximal macros; the same with AVEL_AUTO_DETECT and only -m flags; compilers x standards {GCC, Clang} x {11,14,17,20}; and the "
-                "generic API program (every catalogued operation the width-1 vector offers, odr-used for every wider vector) compiled at -O0 and linked. non-trivial: every configuration.",
-        "explanation": "the oracle is the compiler and linker verdict: a failing static_assert, a compile error or an undefined reference is a violation keyed by configuration and first error line "
+                "generic API program (every catalogued operation the width-1 vector offers, odr-used for every wider vector) compiled at -O0 and linked together with a second translation unit that includes the same headers. non-trivial: every configuration.",
+        "explanation": "the oracle is the compiler and linker verdict: a failing static_assert, a compile error, an undefined reference or a multiple definition is a violation keyed by configuration and first error line "
                        "/ symbol; operations offered by the width-1 vector but not declared for a wider one are recorded by the program itself",
         "assumptions": ["expected widths follow the statement: 128-bit with SSE2, 256-bit with AVX2, 512-bit 32/64-bit lanes with AVX-512F, 8/16-bit lanes with AVX-512BW"],
     },
